@@ -5,14 +5,22 @@ import FeatModel.Lemmas.C17NoScatter
 import FeatModel.Lemmas.C17Cover
 import FeatModel.Lemmas.C17Neighbours
 import FeatModel.Lemmas.C17Bfs
+import FeatModel.Lemmas.C17Repeat
+import FeatModel.Lemmas.C17ColoredChain
+import FeatModel.Lemmas.C17Termination
+import FeatModel.Lemmas.C17TermColored
+import FeatModel.Lemmas.C17ErrLayered
+import FeatModel.Lemmas.C17ErrColored
 /-! # C17 — threaded assembly is race-free, terminates and equals the serial result
 
 All theorems are about the model functions that `drv_c17` executes and that the correspondence run compares with
 `Assembly::DomainAssembler` (`buildThreadLayers` in the `dist` stream; `LCfg.step` / `CCfg.step` in the `trace`
 stream, where every recorded event log of a real run must be a run of these transition systems).
 
-Not proved here (observed by the correspondence run and its oracle only): termination under a fair scheduler
-(only deadlock-freedom is proved); the error path `okay = false`; the C++ memory model (sequentially consistent
+Not proved here (observed by the correspondence run and its oracle only): the scheduler's fairness (assumed, see
+the termination section); for the colored ERROR path only deadlock-freedom and "same colour" are proved
+(`colored_err_safe_partial` lacks the position bounds of `colored_safe`; no variant function); the error path of jobs
+without scatter; the C++ memory model (sequentially consistent
 atomic steps are assumed; ThreadSanitizer observes the real code). -/
 open FeatModel.DA FeatModel.Adj
 
@@ -257,6 +265,188 @@ theorem C17.threaded_eq_serial {α : Type} (op : α → α → α) (hc : ∀ a b
     (order cells : List Nat) (h : order.Perm cells) :
     order.foldl (fun acc c => op acc (contrib c)) z = cells.foldl (fun acc c => op acc (contrib c)) z :=
   FeatModel.DA.threaded_eq_serial op hc ha contrib z order cells h
+
+/-- colored strategy end to end (colouring of the mesh's neighbours graph → worker shares → fence protocol), for
+all interleavings: two workers that are inside `scatter()` at the same time are on two different cells that share
+no vertex. -/
+theorem C17.colored_never_adjacent (nvt : Nat) (vae : List (List Nat)) (hv : ∀ l, l ∈ vae → ∀ v, v ∈ l → v < nvt)
+    (elemIdx : List Nat) (maxW : Nat) (d : Dist) (comb : Bool) (hn : 1 ≤ d.nW)
+    (hce : d.colorElems = (buildColors (neighbours nvt vae) elemIdx maxW).2.2)
+    (hei : d.elemIdx = (buildColors (neighbours nvt vae) elemIdx maxW).2.1)
+    (s : CSt) (hs : (CCfg.ofDist d comb).Reach s) (a b : Nat) (ha : 1 ≤ a) (hab : a < b) (hb : b ≤ d.nW)
+    (hA : s.ph a = .insc) (hB : s.ph b = .insc) :
+    ∃ loc : List Nat, d.elemIdx = loc.map (fun k => elemIdx.getD k 0) ∧ loc.Perm (List.range vae.length) ∧
+      s.pos a < s.pos b ∧
+      ¬ ∃ v, v ∈ vae.getD (loc.getD (s.pos a) 0) [] ∧ v ∈ vae.getD (loc.getD (s.pos b) 0) [] :=
+  FeatModel.DA.colored_never_adjacent nvt vae hv elemIdx maxW d comb hn hce hei s hs a b ha hab hb hA hB
+
+/-! ### repeated jobs on one assembler -/
+
+/-- the reset loop at the start of `assemble()` closes every fence, whatever the previous job left open -/
+theorem C17.reset_closes_all (fs : List Bool) : resetAll fs = List.replicate fs.length false :=
+  resetAll_eq fs
+
+/-- without the reset a stale open worker fence gives a different start state (the theorems below rest on the
+reset; the trace validator rejects a job that starts its protocol with a fence still open) -/
+theorem C17.stale_fence_matters (c : LCfg) : c.initFrom [false, false, true] ≠ c.init :=
+  LCfg.initFrom_stale c
+
+set_option linter.unusedVariables false in
+/-- repeated jobs: after ANY sequence of jobs on one compiled assembler (layered / colored / no-scatter jobs in any
+order; `Session nF fs` = fence vectors such a sequence can leave behind) the next job — modelled as (reset all fences)
+; protocol on the persisted fences `fs` — starts in the initial state of its protocol machine, so that every state it
+reaches is a reachable state of that machine: the safety, mutual-exclusion and no-deadlock theorems apply to every
+job of the sequence. -/
+theorem C17.repeated_jobs_safe (nF : Nat) (fs : List Bool) (h : Session nF fs) :
+    -- layered job
+    (∀ (n : Nat) (le tl cell : Nat → Nat) (comb : Bool),
+      (∀ i j, i < j → j ≤ tl n → le i < le j) → (∀ i, i < n → tl i + 2 ≤ tl (i + 1)) →
+      ∀ s, (LCfg.ofFns n le tl cell comb).ReachFrom ((LCfg.ofFns n le tl cell comb).startJob fs) s →
+        (∀ a b, 1 ≤ a → a < b → b ≤ n → s.ph a = .insc → s.ph b = .insc →
+          ∃ l, l + 1 ≤ tl n ∧ s.pos a < le l ∧ le (l + 1) ≤ s.pos b) ∧
+        (∀ a b, 1 ≤ a ∧ a ≤ n → 1 ≤ b ∧ b ≤ n → s.ph a = .inComb → s.ph b = .inComb → a = b) ∧
+        (LCfg.final s = false → ∃ e s', (LCfg.ofFns n le tl cell comb).step s e = some s')) ∧
+    -- colored job
+    (∀ (c : CCfg), 1 ≤ c.n → ∀ s, c.ReachFrom (c.startJob fs) s →
+        (∀ a b, 1 ≤ a ∧ a ≤ c.n → 1 ≤ b ∧ b ≤ c.n → s.ph a = .insc → s.ph b = .insc →
+          s.col a = s.col b ∧ c.cbeg (s.col a) a ≤ s.pos a ∧ s.pos a < c.cend (s.col a) a) ∧
+        (∀ a b, 1 ≤ a ∧ a ≤ c.n → 1 ≤ b ∧ b ≤ c.n → s.ph a = .inComb → s.ph b = .inComb → a = b) ∧
+        (CCfg.final s = false → ∃ e s', c.step s e = some s')) ∧
+    -- job without scatter
+    (∀ (c : NCfg) s, c.ReachFrom (c.startJob fs) s →
+        (∀ a b, 1 ≤ a ∧ a ≤ c.n → 1 ≤ b ∧ b ≤ c.n → s.ph a = .inComb → s.ph b = .inComb → a = b) ∧
+        (NCfg.final s = false → ∃ e s', c.step s e = some s')) := by
+  refine ⟨?_, ?_, ?_⟩
+  · intro n le tl cell comb hle htl s hs
+    have hr := (LCfg.reachFrom_startJob _ fs s).1 hs
+    exact ⟨fun a b ha hab hb hA hB => layered_safe_bounded n le tl cell comb hle htl s hr a b ha hab hb hA hB,
+      fun a b ha hb hA hB => FeatModel.DA.layered_combine_mutex _ s hr a b ha hb hA hB,
+      fun hf => FeatModel.DA.layered_no_deadlock n le tl cell comb hle htl s hr hf⟩
+  · intro c hn s hs
+    have hr := (CCfg.reachFrom_startJob c fs s).1 hs
+    exact ⟨fun a b ha hb hA hB => FeatModel.DA.colored_safe c hn s hr a b ha hb hA hB,
+      fun a b ha hb hA hB => FeatModel.DA.colored_combine_mutex c s hr a b ha hb hA hB,
+      fun hf => FeatModel.DA.colored_no_deadlock c hn s hr hf⟩
+  · intro c s hs
+    have hr := (NCfg.reachFrom_startJob c fs s).1 hs
+    exact ⟨fun a b ha hb hA hB => FeatModel.DA.noscatter_combine_mutex c s hr a b ha hb hA hB,
+      fun hf => FeatModel.DA.noscatter_no_deadlock c s hr hf⟩
+
+/-! ### termination
+
+Every thread's program is a bounded loop, so a variant function (total remaining work of all threads) strictly
+decreases with EVERY transition.  Consequences: no run is longer than the initial measure; a run that cannot be
+extended has reached the final state (deadlock-freedom); from every reachable state the final state is reachable.
+What the model does NOT contain is the scheduler: that the real threads keep taking enabled steps is the fairness
+assumption — every runnable thread is eventually scheduled, and a thread blocked in `ThreadFence::wait()` returns
+once the fence is open (`open()` sets `_open` under the fence mutex and calls `notify_all()`; the waiter re-checks
+`_open` under the same mutex in a loop, so there is no lost wake-up; assumed: `std::condition_variable` delivers the
+notification or a later spurious wake-up).  Under this weak fairness every run of the real protocol is a maximal run
+of the model, hence finite and ending in the final state. -/
+
+theorem C17.layered_variant_decreases (n : Nat) (le tl cell : Nat → Nat) (comb : Bool)
+    (hle : ∀ i j, i < j → j ≤ tl n → le i < le j) (htl : ∀ i, i < n → tl i + 2 ≤ tl (i + 1))
+    (s : LSt) (hs : (LCfg.ofFns n le tl cell comb).Reach s) (e : Ev) (s' : LSt)
+    (h : (LCfg.ofFns n le tl cell comb).step s e = some s') :
+    (LCfg.ofFns n le tl cell comb).measure s' < (LCfg.ofFns n le tl cell comb).measure s :=
+  FeatModel.DA.layered_variant_decreases n le tl cell comb hle htl s hs e s' h
+
+/-- every layered run is finite (bounded by the measure), every maximal run ends in the final state, and a final
+state is reachable from every reachable state -/
+theorem C17.layered_terminates (n : Nat) (le tl cell : Nat → Nat) (comb : Bool)
+    (hle : ∀ i j, i < j → j ≤ tl n → le i < le j) (htl : ∀ i, i < n → tl i + 2 ≤ tl (i + 1))
+    (s : LSt) (hs : (LCfg.ofFns n le tl cell comb).Reach s) :
+    (∀ es s', (LCfg.ofFns n le tl cell comb).run s es = some s' →
+      es.length + (LCfg.ofFns n le tl cell comb).measure s' ≤ (LCfg.ofFns n le tl cell comb).measure s) ∧
+    ((∀ e, (LCfg.ofFns n le tl cell comb).step s e = none) → LCfg.final s = true) ∧
+    (∃ es s', (LCfg.ofFns n le tl cell comb).run s es = some s' ∧ LCfg.final s' = true) :=
+  ⟨fun es s' h => FeatModel.DA.layered_runs_bounded n le tl cell comb hle htl s hs es s' h,
+   fun hmax => FeatModel.DA.layered_maximal_run_final n le tl cell comb hle htl s hs hmax,
+   FeatModel.DA.layered_terminates n le tl cell comb hle htl s hs⟩
+
+theorem C17.colored_variant_decreases (c : CCfg) (hn : 1 ≤ c.n) (s : CSt) (hs : c.Reach s) (e : Ev) (s' : CSt)
+    (h : c.step s e = some s') : c.measure s' < c.measure s :=
+  FeatModel.DA.colored_variant_decreases c hn s hs e s' h
+
+theorem C17.colored_terminates (c : CCfg) (hn : 1 ≤ c.n) (s : CSt) (hs : c.Reach s) :
+    (∀ es s', c.run s es = some s' → es.length + c.measure s' ≤ c.measure s) ∧
+    ((∀ e, c.step s e = none) → CCfg.final s = true) ∧
+    (∃ es s', c.run s es = some s' ∧ CCfg.final s' = true) :=
+  ⟨fun es s' h => FeatModel.DA.colored_runs_bounded c hn s hs es s' h,
+   fun hmax => FeatModel.DA.colored_maximal_run_final c hn s hs hmax,
+   FeatModel.DA.colored_terminates c hn s hs⟩
+
+theorem C17.noscatter_terminates (c : NCfg) (s : NSt) (hs : c.Reach s) :
+    (∀ e s', c.step s e = some s' → c.measure s' < c.measure s) ∧
+    (∀ es s', c.run s es = some s' → es.length + c.measure s' ≤ c.measure s) ∧
+    ((∀ e, c.step s e = none) → NCfg.final s = true) ∧
+    (∃ es s', c.run s es = some s' ∧ NCfg.final s' = true) :=
+  ⟨fun e s' h => FeatModel.DA.noscatter_variant_decreases c s hs e s' h,
+   fun es s' h => FeatModel.DA.noscatter_runs_bounded c s hs es s' h,
+   fun hmax => FeatModel.DA.noscatter_maximal_run_final c s hs hmax,
+   FeatModel.DA.noscatter_terminates c s hs⟩
+
+/-! ### the error path (`okay = false`)
+
+A task may throw wherever task code runs; the worker then opens its own fence with `open(false)` and terminates, and
+`false` cascades through the fence waits.  `LCfg.estep` / `CCfg.estep` are executed by the driver on the logs of runs
+with an injected task failure. -/
+
+/-- layered error path: whatever fails wherever, every reachable non-final state has an enabled transition — all
+workers terminate and the master joins -/
+theorem C17.layered_err_no_deadlock (n : Nat) (le tl cell : Nat → Nat) (comb : Bool)
+    (hle : ∀ i j, i < j → j ≤ tl n → le i < le j) (htl : ∀ i, i < n → tl i + 2 ≤ tl (i + 1))
+    (s : LESt) (hs : (LCfg.ofFns n le tl cell comb).EReach s) (hf : LCfg.efinal s = false) :
+    ∃ e s', (LCfg.ofFns n le tl cell comb).estep s e = some s' :=
+  FeatModel.DA.layered_err_no_deadlock n le tl cell comb hle htl s hs hf
+
+/-- failures do not break the safety of the remaining workers -/
+theorem C17.layered_err_safe (n : Nat) (le tl cell : Nat → Nat) (comb : Bool)
+    (hle : ∀ i j, i < j → j ≤ tl n → le i < le j) (htl : ∀ i, i < n → tl i + 2 ≤ tl (i + 1))
+    (s : LESt) (hs : (LCfg.ofFns n le tl cell comb).EReach s)
+    (a b : Nat) (ha : 1 ≤ a) (hab : a < b) (hb : b ≤ n)
+    (hA : s.base.ph a = .insc ∧ s.failing a = false) (hB : s.base.ph b = .insc ∧ s.failing b = false) :
+    ∃ l, s.base.pos a < le l ∧ le (l + 1) ≤ s.base.pos b :=
+  FeatModel.DA.layered_err_safe n le tl cell comb hle htl s hs a b ha hab hb hA hB
+
+/-- the machine with failures extends the failure-free one: every reachable state of `LCfg` is the base of a
+reachable state of the error machine in which nobody has failed -/
+theorem C17.layered_err_conservative (c : LCfg) (s : LSt) (hs : c.Reach s) :
+    ∃ es : LESt, c.EReach es ∧ es.base = s ∧ (∀ t, es.failing t = false) :=
+  FeatModel.DA.layered_err_conservative c s hs
+
+/-- layered error path: the variant function decreases with every step (also with failures), so every run is
+finite, every maximal run is final, and the final state is reachable from every reachable state -/
+theorem C17.layered_err_terminates (n : Nat) (le tl cell : Nat → Nat) (comb : Bool)
+    (hle : ∀ i j, i < j → j ≤ tl n → le i < le j) (htl : ∀ i, i < n → tl i + 2 ≤ tl (i + 1))
+    (s : LESt) (hs : (LCfg.ofFns n le tl cell comb).EReach s) :
+    (∀ e s', (LCfg.ofFns n le tl cell comb).estep s e = some s' →
+      (LCfg.ofFns n le tl cell comb).emeasure s' < (LCfg.ofFns n le tl cell comb).emeasure s) ∧
+    (∀ es s', (LCfg.ofFns n le tl cell comb).erun s es = some s' →
+      es.length + (LCfg.ofFns n le tl cell comb).emeasure s' ≤ (LCfg.ofFns n le tl cell comb).emeasure s) ∧
+    ((∀ e, (LCfg.ofFns n le tl cell comb).estep s e = none) → LCfg.efinal s = true) ∧
+    (∃ es s', (LCfg.ofFns n le tl cell comb).erun s es = some s' ∧ LCfg.efinal s' = true) :=
+  ⟨fun e s' h => FeatModel.DA.layered_err_variant_decreases n le tl cell comb hle htl s hs e s' h,
+   fun es s' h => FeatModel.DA.layered_err_runs_bounded n le tl cell comb hle htl s hs es s' h,
+   fun hmax => FeatModel.DA.layered_err_maximal_run_final n le tl cell comb hle htl s hs hmax,
+   FeatModel.DA.layered_err_terminates n le tl cell comb hle htl s hs⟩
+
+/-- colored error path (workers fail in prepare/assemble/scatter/finish/combine or the constructor; the master
+collects `all_okay`, opens the back fence with `false`, leaves the colour loop and joins): no deadlock -/
+theorem C17.colored_err_no_deadlock (c : CCfg) (hn : 1 ≤ c.n) (s : CESt) (hs : c.EReach s)
+    (hf : CCfg.efinal s = false) : ∃ e s', c.estep s e = some s' :=
+  FeatModel.DA.colored_err_no_deadlock c hn s hs hf
+
+/-- colored error path: workers that scatter at the same time still work on the same colour -/
+theorem C17.colored_err_safe_partial (c : CCfg) (hn : 1 ≤ c.n) (s : CESt) (hs : c.EReach s) (a b : Nat)
+    (ha : 1 ≤ a ∧ a ≤ c.n) (hb : 1 ≤ b ∧ b ≤ c.n)
+    (hA : s.base.ph a = .insc ∧ s.failing a = false) (hB : s.base.ph b = .insc ∧ s.failing b = false) :
+    s.base.col a = s.base.col b :=
+  FeatModel.DA.colored_err_safe c hn s hs a b ha hb hA hB
+
+theorem C17.colored_err_conservative (c : CCfg) (s : CSt) (hs : c.Reach s) :
+    ∃ es : CESt, c.EReach es ∧ es.base = s ∧ (∀ t, es.failing t = false) ∧ es.allOkay = true :=
+  FeatModel.DA.colored_err_conservative c s hs
 
 /-- the hypotheses of `thread_layers_spec` / `layered_safe_built` are satisfiable by a non-trivial value:
 8 layers of sizes 1..8, 3 requested workers -/
